@@ -396,6 +396,34 @@ theorem Heap.run_selfBound (ops : List (LossOp α)) : ∀ (h : Heap α), h.SelfB
     intro h hw
     exact ih (h.step op) (Heap.step_selfBound h hw op)
 
+theorem Heap.length_le_step (h : Heap α) (op : LossOp α) : h.length ≤ (h.step op).length := by
+  cases op with
+  | new s => simp [Heap.step]
+  | mul i c => simp only [Heap.step]; cases h[i]? <;> simp [Heap.copyRebindScale]
+  | div i c => simp only [Heap.step]; cases h[i]? <;> simp [Heap.copyRebindScale]
+  | setScale i s => simp [Heap.step]
+
+theorem Heap.length_le_run (ops : List (LossOp α)) : ∀ h : Heap α, h.length ≤ (h.run ops).length := by
+  induction ops with
+  | nil => intro h; exact le_refl _
+  | cons op t ih => intro h; exact le_trans (Heap.length_le_step h op) (ih (h.step op))
+
+theorem Heap.run_append (h : Heap α) (a b : List (LossOp α)) : h.run (a ++ b) = (h.run a).run b := by
+  simp [Heap.run, List.foldl_append]
+
+/-- an object that exists keeps existing (objects are never deleted) -/
+theorem Heap.evalScale_isSome_mono (a b : List (LossOp α)) (i : Nat)
+    (hi : (Heap.run ([] : Heap α) a).evalScale i ≠ none) :
+    ∃ s, (Heap.run ([] : Heap α) (a ++ b)).evalScale i = some s := by
+  have hlt : i < (Heap.run ([] : Heap α) a).length := by
+    by_contra hge
+    apply hi
+    simp [Heap.evalScale, List.getElem?_eq_none (not_lt.mp hge)]
+  have hlt2 : i < (Heap.run ([] : Heap α) (a ++ b)).length := by
+    rw [Heap.run_append]
+    exact lt_of_lt_of_le hlt (Heap.length_le_run b _)
+  exact ⟨((Heap.run ([] : Heap α) (a ++ b))[i]).scale, by simp [Heap.evalScale, List.getElem?_eq_getElem hlt2]⟩
+
 theorem Heap.nil_selfBound : Heap.SelfBound ([] : Heap α) := by
   unfold Heap.SelfBound
   intro i o hi; simp at hi
